@@ -36,7 +36,8 @@ man = {
         "name": "lean4-proof+correspondence", "path": "/verif/check",
         "serves_properties": READY,
         "kind_free_text": "Lean 4 theorems about hand-written executable models (lean/P2PVerif), tied to /repo on every run by "
-                          "regenerated facts (harness/cmd/extract -> Gen/Facts.lean) and by differential correspondence "
+                          "regenerated facts (harness/cmd/extract -> Gen/Facts.lean), by definitions of the pure cores regenerated from the Go source "
+                          "by a Go->Lean translator (harness/cmd/go2lean -> Gen/Src.lean, proved equal to the models) and by differential correspondence "
                           "(harness/cmd/corr drives the real code, lean driver replays the same ops through the model)",
     }],
     "checks": checks,
